@@ -82,7 +82,10 @@ class Result:
 
     def violation(self, what, case, mechanism=None, **extra):
         self.n_violations += 1
-        if len(self.violations) < self.MAX_VIOLATIONS:
+        key = "mechanism:%s" % mechanism
+        self.counters[key] = self.counters.get(key, 0) + 1
+        # the cap is per mechanism, so a flood of one (known) kind cannot hide another
+        if self.counters[key] <= self.MAX_VIOLATIONS:
             w = {"what": what, "mechanism": mechanism, "case": jsonable(case)}
             w.update({k: jsonable(v) for k, v in extra.items()})
             self.violations.append(w)
@@ -122,9 +125,7 @@ class Result:
             if len(self.samples) < self.MAX_SAMPLES:
                 self.samples.append(s)
         self.n_violations += other.n_violations
-        for v in other.violations:
-            if len(self.violations) < 4 * self.MAX_VIOLATIONS:
-                self.violations.append(v)
+        self.violations.extend(other.violations)
         for k, v in other.counters.items():
             if isinstance(v, (int, float)):
                 self.counters[k] = self.counters.get(k, 0) + v
